@@ -99,19 +99,39 @@ theorem lfn_not_inherited (st : SeqState) (buf : Buf) (d1 d2 : DirEntry) (r1 r2 
   Lemmas.C17.lfn_not_inherited st buf d1 d2 r1 r2 rest out h1 h2 h
 
 /-- The sequence state is `Complete c` only directly after a fragment with sequence number 1
-whose run started with a start-flagged fragment and counted down without a gap, all with the
-checksum `c` of the *first* fragment of the run.  Stated on the state machine: one step. -/
+that carries the checksum byte `c` and either is start-flagged or continues a run that expected
+exactly number 1 with the same checksum `c` (every fragment of the run carries the checksum).
+Stated on the state machine: one step. -/
 theorem seq_complete_only_after_one (st st' : SeqState) (buf buf' : Buf) (start : Bool) (sq cs c : Nat)
     (frag : List Nat) (h : st.update buf start sq cs frag = .ok (st', buf')) (hc : st' = .Complete c) :
-    sq = 1 ∧ ((start = true ∧ c = cs) ∨ (start = false ∧ st = .Remaining c 1)) :=
+    sq = 1 ∧ c = cs ∧ (start = true ∨ (start = false ∧ st = .Remaining c 1)) :=
   Lemmas.C17.seq_complete_only_after_one st st' buf buf' start sq cs c frag h hc
 
-/-- … and `Remaining c n` only after a fragment numbered `n + 1` that either started the run or
-continued a run expecting exactly that number. -/
+/-- … and `Remaining c n` only after a fragment numbered `n + 1` that carries the checksum byte
+`c` and either started the run or continued a run with checksum `c` expecting exactly that number
+(every fragment of the run carries the checksum). -/
 theorem seq_remaining_only_in_order (st st' : SeqState) (buf buf' : Buf) (start : Bool) (sq cs c n : Nat)
     (frag : List Nat) (h : st.update buf start sq cs frag = .ok (st', buf')) (hc : st' = .Remaining c n) :
-    sq = n + 1 ∧ ((start = true ∧ c = cs) ∨ (start = false ∧ st = .Remaining c sq)) :=
+    sq = n + 1 ∧ c = cs ∧ (start = true ∨ (start = false ∧ st = .Remaining c sq)) :=
   Lemmas.C17.seq_remaining_only_in_order st st' buf buf' start sq cs c n frag h hc
+
+/-- The state machine folded over consecutive long-name fragments `(is_start, sequence, csum,
+units)`, as `lfnFold` does between two short entries. -/
+def updateAll (st : SeqState) (buf : Buf) : List (Bool × Nat × Nat × List Nat) → Res (SeqState × Buf)
+  | [] => .ok (st, buf)
+  | x :: rest => (st.update buf x.1 x.2.1 x.2.2.1 x.2.2.2).bind fun p => updateAll p.1 p.2 rest
+
+/-- The same over whole runs: if a non-empty list of consecutive fragments, processed from a state
+that is not in the middle of a run (`Waiting`, as after every short entry, or `Complete`), ends in
+`Complete c`, then the list ends with a run `x :: tl` of `k = tl.length + 1 ≥ 1` fragments whose
+first is start-flagged, whose sequence numbers are `k, k-1, …, 1`, and all of whose checksum
+bytes equal `c`. -/
+theorem lfn_run_checksums (st : SeqState) (buf buf' : Buf) (frs : List (Bool × Nat × Nat × List Nat)) (c : Nat)
+    (hst : ∀ c' n, st ≠ .Remaining c' n) (hne : frs ≠ [])
+    (h : updateAll st buf frs = .ok (.Complete c, buf')) :
+    ∃ pre x tl, frs = pre ++ x :: tl ∧ x.1 = true ∧
+      ∀ i y, (x :: tl)[i]? = some y → y.2.1 = (tl.length + 1) - i ∧ y.2.2.1 = c :=
+  Lemmas.C17.lfn_run_checksums st buf buf' frs c hst hne h
 
 /-- A long name is reported only when the state is `Complete` with the checksum of the short
 entry that follows; otherwise the entry is reported with no long name. -/
